@@ -1,3 +1,200 @@
-From PK Require Import Version.Version Version.Fields Version.VersionCases.
-Theorem c16_placeholder : True. Proof. exact I. Qed.
-Print Assumptions c16_placeholder.
+(* C16 - Protocol version is honoured: echo, refusal, feature gating.
+   Model: PK.Version.Version / Fields over the tables regenerated from /repo (PKGen.Versions, VersionFields,
+   AttrRuleTable); independent tables: PK.Version.Spec (hand-written from the KMIP specifications). *)
+From Coq Require Import ZArith List String Bool Sorting.Sorted.
+From PKGen Require Import Enums AttrRuleTable Versions VersionFields.
+From PK Require Import Version.Version Version.Fields Version.Spec Version.VersionProofs Version.SpecProofs.
+Import ListNotations.
+Open Scope Z_scope.
+Open Scope string_scope.
+
+(* ---------------------------------------------------------------- echo *)
+(* every supported version, every batch, every handler behaviour: the answer's header carries the request's version *)
+Theorem version_echo : forall St Payload handler (req : request Payload) (st : St),
+  In (rq_version req) supported_versions -> rq_header_reject req = None ->
+  exists st' os tr, process_request St Payload handler req st = (st', RespMessage (rq_version req) os, tr).
+Proof. exact version_echo_engine. Qed.
+Print Assumptions version_echo.
+Example version_echo_hyp : In (1, 3) supported_versions /\ In (2, 0) supported_versions.
+Proof. split; vm_compute; tauto. Qed.
+
+(* what the session sends, error answers included, whenever the codec knows the version *)
+Theorem version_echo_wire : forall St Payload handler known (req : request Payload) (st : St),
+  known (rq_version req) = true ->
+  match snd (fst (session_handle St Payload handler known req st)) with
+  | WireError hv _ => hv = rq_version req
+  | WireMessage hv _ => hv = rq_version req
+  end.
+Proof. exact version_echo_session. Qed.
+Print Assumptions version_echo_wire.
+
+(* ---------------------------------------------------------------- refusal *)
+(* any (major, minor) outside the list: InvalidMessage, the state is returned untouched, no handler is entered *)
+Theorem unsupported_refused : forall St Payload handler (req : request Payload) (st : St),
+  ~ In (rq_version req) supported_versions ->
+  process_request St Payload handler req st = (st, RespRaised R_INVALID_MESSAGE, []).
+Proof. exact unsupported_refused_engine. Qed.
+Print Assumptions unsupported_refused.
+Example unsupported_refused_hyp : ~ In (1, 5) supported_versions /\ ~ In (1, 10) supported_versions /\ ~ In (0, 9) supported_versions.
+Proof. repeat split; intro H; vm_compute in H; repeat (destruct H as [H|H]; [discriminate H|]); exact H. Qed.
+
+Theorem unsupported_refused_wire : forall St Payload handler known (req : request Payload) (st : St),
+  ~ In (rq_version req) supported_versions ->
+  exists hv, session_handle St Payload handler known req st = (st, WireError hv R_INVALID_MESSAGE, []).
+Proof. exact unsupported_refused_session. Qed.
+Print Assumptions unsupported_refused_wire.
+
+Theorem accepted_iff_listed : forall v, version_accepted v = true <-> In v supported_versions.
+Proof. exact version_accepted_iff. Qed.
+Print Assumptions accepted_iff_listed.
+
+(* ---------------------------------------------------------------- operations *)
+(* min_version op > v  ->  OperationNotSupported, state untouched, handler not entered *)
+Theorem op_gated : forall St Payload handler v (it : item Payload) (st : St) mv,
+  In v supported_versions -> op_min_version (it_op it) = Some mv -> ver_ltb v mv = true ->
+  run_item St Payload handler v it st = (st, OutErr R_OPERATION_NOT_SUPPORTED, []).
+Proof.
+  intros St Payload handler v it st mv Hv Hm Hlt.
+  exact (run_item_refused St Payload handler v it st (op_gated_gate v (it_op it) mv Hv Hm Hlt)).
+Qed.
+Print Assumptions op_gated.
+Example op_gated_hyp : op_min_version 31 = Some (1, 2) /\ ver_ltb (1, 1) (1, 2) = true /\ op_min_version 49 = Some (2, 0).
+Proof. repeat split; vm_compute; reflexivity. Qed.
+
+(* an operation the dispatcher does not know is refused the same way under every version *)
+Theorem op_undispatched : forall St Payload handler v (it : item Payload) (st : St),
+  op_min_version (it_op it) = None ->
+  run_item St Payload handler v it st = (st, OutErr R_OPERATION_NOT_SUPPORTED, []).
+Proof.
+  intros St Payload handler v it st H; unfold run_item; rewrite (undispatched_gate v _ H); reflexivity.
+Qed.
+Print Assumptions op_undispatched.
+
+(* the exact characterisation of the gate for supported versions *)
+Theorem op_gate_exact : forall v op, In v supported_versions ->
+  match lookup_handler op with
+  | None => gate v op = GateUnknownOp /\ op_min_version op = None
+  | Some h => exists mv, op_min_version op = Some mv /\ gate v op = if ver_ltb v mv then GateVersion h else GateRun h
+  end.
+Proof. exact gate_char. Qed.
+Print Assumptions op_gate_exact.
+
+(* against the specification table: under v no operation introduced after v gets through *)
+Theorem op_gated_by_spec : forall v op s, In v supported_versions -> spec_op_min op = Some s -> ver_ltb v s = true ->
+  gate_runs v op = false.
+Proof. exact op_gated_spec. Qed.
+Print Assumptions op_gated_by_spec.
+
+(* all requests and batches (induction over the batch): whatever is entered belongs to an operation of the batch that the
+   specification already had in the request's version *)
+Theorem op_never_entered_early : forall St Payload handler (req : request Payload) (st : St) h,
+  In h (snd (process_request St Payload handler req st)) ->
+  In (rq_version req) supported_versions /\
+  exists it, In it (rq_items req) /\ lookup_handler (it_op it) = Some h /\
+             forall s, spec_op_min (it_op it) = Some s -> ver_leb s (rq_version req) = true.
+Proof. exact handlers_entered_respect_spec. Qed.
+Print Assumptions op_never_entered_early.
+
+(* the decorator compares floats; with one-digit minors that is the version order ... *)
+Theorem decorator_comparison_sound : forall a b : ver, 0 <= snd a < 10 -> 0 <= snd b < 10 ->
+  float_ltb a b = ver_ltb a b /\ float_eqb a b = ver_eqb a b.
+Proof.
+  intros a b [Ha0 Ha] [Hb0 Hb]; split;
+    [apply float_ltb_one_digit | apply float_eqb_one_digit]; assumption.
+Qed.
+Print Assumptions decorator_comparison_sound.
+Theorem decorator_inputs_one_digit :
+  forallb one_digit supported_versions = true /\ forallb (fun e => forallb one_digit (snd e)) handler_min_versions = true.
+Proof. exact (conj supported_one_digit decorator_args_one_digit). Qed.
+(* ... and stops being it as soon as a minor reaches 10 (KMIP 1.10 would read as 1.1) *)
+Theorem decorator_comparison_general_refuted : exists a b, float_ltb a b = true /\ ver_ltb a b = false.
+Proof. exists (1, 10), (1, 2); exact float_cmp_wrong_beyond_minor_9. Qed.
+
+(* ---------------------------------------------------------------- Query *)
+Theorem query_ops_available : forall v op, In v supported_versions -> In op (query_ops v) ->
+  (exists h, gate v op = GateRun h) /\
+  (exists mv, op_min_version op = Some mv /\ ver_leb mv v = true) /\
+  (exists s, spec_op_min op = Some s /\ ver_leb s v = true).
+Proof. exact query_ops_available_lemma. Qed.
+Print Assumptions query_ops_available.
+Example query_ops_hyp : In 31 (query_ops (1, 2)) /\ ~ In 31 (query_ops (1, 1)) /\ In 30 (query_ops (1, 1)).
+Proof.
+  repeat split; try (vm_compute; tauto).
+  intro H; vm_compute in H; repeat (destruct H as [H|H]; [discriminate H|]); exact H.
+Qed.
+
+(* ---------------------------------------------------------------- DiscoverVersions *)
+Theorem discover_versions_sound : forall client,
+  (forall v, In v (discover client) ->
+     In v supported_versions /\ version_accepted v = true /\ (client <> [] -> In v client))
+  /\ StronglySorted newer (discover client)
+  /\ (forall v, In v supported_versions -> (client = [] \/ In v client) -> In v (discover client)).
+Proof. exact discover_sound. Qed.
+Print Assumptions discover_versions_sound.
+
+(* ---------------------------------------------------------------- attributes *)
+(* in a template attribute: a name introduced after v (or unknown to the table) makes the request fail at the gate *)
+Theorem attr_gated_template : forall v names n r,
+  In n names -> find_rule n = Some r -> ver_ltb v (ar_version_added r) = true ->
+  exists m, template_gate v names = Some m /\ In m names /\ attr_supported v m = false.
+Proof.
+  intros v names n r Hin Hr Hlt.
+  exact (template_gate_refuses v names n Hin (attr_later_unsupported v n r Hr Hlt)).
+Qed.
+Print Assumptions attr_gated_template.
+Example attr_gated_template_hyp :
+  exists r, find_rule "Sensitive" = Some r /\ ver_ltb (1, 3) (ar_version_added r) = true /\ template_gate (1, 3) ["Name"; "Sensitive"] = Some "Sensitive".
+Proof. eexists; repeat split; vm_compute; reflexivity. Qed.
+
+Theorem attr_gated_template_unknown : forall v names n,
+  In n names -> find_rule n = None -> exists m, template_gate v names = Some m /\ In m names /\ attr_supported v m = false.
+Proof.
+  intros v names n Hin Hr. exact (template_gate_refuses v names n Hin (attr_unknown_unsupported v n Hr)).
+Qed.
+
+(* GetAttributes / GetAttributeList: whatever is reported is in the table, was added no later than v and is not
+   deprecated at v - for every object (held), every requested list *)
+Theorem attr_gated_reported : forall v held cands n, In n (reported v held cands) ->
+  In n cands /\ held n = true /\
+  exists r, find_rule n = Some r /\ ver_leb (ar_version_added r) v = true /\
+            (forall d, ar_version_deprecated r = Some d -> ver_ltb v d = true).
+Proof. exact reported_sound. Qed.
+Print Assumptions attr_gated_reported.
+Example attr_gated_reported_hyp :
+  reported (1, 3) (fun _ => true) ["Sensitive"; "State"; "Operation Policy Name"] = ["State"; "Operation Policy Name"]
+  /\ reported (2, 0) (fun _ => true) ["Sensitive"; "State"; "Operation Policy Name"] = ["Sensitive"; "State"].
+Proof. split; vm_compute; reflexivity. Qed.
+
+(* against the specification table *)
+Theorem attr_gated_by_spec : forall v n, ver_ltb v (spec_attr_min n) = true -> attr_supported v n = false.
+Proof. exact attr_gated_spec. Qed.
+Print Assumptions attr_gated_by_spec.
+
+(* ---------------------------------------------------------------- message fields *)
+(* for every (class, tag, v0) of the specification table and every KMIPVersion v: the read method of the class reaches
+   the tag exactly when v >= v0 *)
+Theorem field_gated : forall cls t v0 v, In (cls, t, v0) SpecFieldVersions -> In v kmip_versions ->
+  tag_allowed cls v t = ver_leb v0 v.
+Proof. exact field_gated_lemma. Qed.
+Print Assumptions field_gated.
+
+(* structures that only exist from v0 on are refused by read and by write exactly below v0 *)
+Theorem structure_gated : forall cls v0 v, In (cls, v0) SpecClassVersions -> In v kmip_versions ->
+  class_refused_in "read" cls v = ver_ltb v v0 /\ class_refused_in "write" cls v = ver_ltb v v0.
+Proof. exact class_refused_lemma. Qed.
+Print Assumptions structure_gated.
+
+(* the regenerated tables agree with the hand-written specification tables: supported list, operation minima,
+   attribute versions (names and tags), field and structure versions; read/write guards of each class match; no
+   version block of the source is unknown to the specification table *)
+Theorem spec_tables_agree :
+  ops_agree_with_spec = true /\ supported_agree_with_spec = true /\ attrs_agree_with_spec = true
+  /\ attr_tags_agree_with_spec = true /\ fields_agree_with_spec = true /\ classes_agree_with_spec = true
+  /\ read_write_symmetric = true /\ spec_covers_intro_guards = true.
+Proof. exact tables_agree. Qed.
+Print Assumptions spec_tables_agree.
+
+(* statement kept visible, not proved here: field gating over the full regenerated schemas of the codec
+   (PKGen.Schemas, produced by the C01/C02 translator) - `wr` never emits and `rd` never accepts an item whose guard
+   excludes v.  The theorems above cover the version blocks of the read/write methods extracted by gen_versions.py;
+   the byte-level behaviour is tied by the field x version correspondence of harness/c16_fields.py. *)
